@@ -98,6 +98,8 @@ def _compile_obj(src, flags, hh):
 
 def build_harness(variant="asan", extra_link=()):
     """returns path of the harness executable built from /repo's current working tree"""
+    if os.environ.get("VERIF_HARNESS_OVERRIDE"):        # development aid only (coverage measurement of the workloads, tools/coverage.sh)
+        return os.environ["VERIF_HARNESS_OVERRIDE"]
     flags = BASE_FLAGS + VARIANTS[variant]
     hflags = flags + ["-fno-access-control"]
     with Lock("harness-" + variant):
